@@ -23,6 +23,10 @@ func reuseItems(sw *sweeper, tier string, flags ...string) []*corp.Item {
 	for _, rec := range selectSyn(conflictFreeRecs(sw, "quick"), func(rec *synRec) *GenOut { return rec.Plain }, budget) {
 		add(rec.Fam, rec.G)
 	}
+	// nesting, right- and left-recursive shapes (deep inputs drive the parser stack beyond its initial capacity)
+	for _, s := range []string{"S: l S r | x", "L: x L | x", "E: E p T | T ; T: l E r | x"} {
+		add("Deep", gram.Mk(s))
+	}
 	for i, g := range errFamily("quick") {
 		if i < len(gram.ErrSeeds()) || (tier == "thorough" && i%5 == 0) {
 			add("Err", g)
